@@ -36,12 +36,40 @@ def _case(draw):
     spec = draw(D.dataset_spec(nan=True, probe_labels=True))
     reads = [[draw(st.integers(0, spec['n_raw'] - 1)), draw(st.integers(1, 12))] for _ in range(3)]
     return {'spec': spec, 'nonmono': draw(st.integers(0, 4)) == 0, 'reads': reads,
-            'decoy': draw(st.booleans())}
+            'decoy': draw(st.booleans()), 'dirname': draw(st.sampled_from(DIRNAMES))}
+
+
+# directory names are the user's: blanks, brackets and other characters that mean something to
+# glob / fnmatch / regular expressions are ordinary characters in a path
+DIRNAMES = ['ds', 'ds', 'ds', 'probe [imec0]', 'run*1', 'what?', 'a[0-9]b', 'sorted (ks2.5)',
+            'x{1,2}', '~tmp', 'rec#1 100%']
+
+
+def _large_cases(th):
+    # spike counts beyond 2**16 / 2**18 / 2**20 with one inversion exactly on such a boundary or
+    # anywhere else; the good variant is loaded and compared in full
+    sizes = [(2 ** 20 + 7, [2 ** 20 - 1, 2 ** 16 - 1])] + (
+        [(2 ** 20 + 7, [2 ** 18 - 1, 2 ** 19 - 1, 2 ** 20 + 5, 0, 777777]),
+         (2 ** 21 + 3, [2 ** 21 - 1, 2 ** 20 - 1])] if th else [])
+    for ns, swaps in sizes:
+        for sw in swaps:
+            yield {'large': {'ns': ns, 'seed': sw % 89}, 'swap': sw, 'nonmono': True, 'reads': [],
+                   'decoy': False}
+
+
+def _large_spec(par):
+    spec = D.large_spec(par['ns'], seed=par['seed'])
+    spec['pcf'] = None
+    spec['samples'] = (np.arange(par['ns'], dtype=np.int64) * 3 + 1).tolist()
+    return spec
 
 
 def drivers(tier):
     th = tier == 'thorough'
-    return [dict(kind='hyp', name='datasets', strategy=_case(), examples=120000 if th else 10000)]
+    return [dict(kind='enum', name='large', exhaustive=False,
+                 bound='more than 2**20 spikes, one inversion on a power-of-two boundary',
+                 cases=lambda: _large_cases(th)),
+            dict(kind='hyp', name='datasets', strategy=_case(), examples=120000 if th else 10000)]
 
 
 def _expected_samples(T):
@@ -59,20 +87,21 @@ def _scrub(a):
 
 
 def check(case):
-    spec = case['spec']
+    spec = case['spec'] if 'spec' in case else _large_spec(case['large'])
     info = {}
     with env.scratch() as d:
         if case['nonmono'] and len(set(spec['samples'])) >= 2:
             bad = dict(spec)
             s = list(spec['samples'])
-            i = next(k for k in range(len(s) - 1) if s[k] != s[k + 1])
+            i = case['swap'] if 'swap' in case else \
+                next(k for k in range(len(s) - 1) if s[k] != s[k + 1])
             s[i], s[i + 1] = s[i + 1], s[i]
             bad['samples'] = s
             T = D.build(bad, d / 'bad')
             must_raise('load_model(non-monotonic spike times)', ValueError, load_model,
                        T.params_path)
             info['nonmono'] = True
-        T = D.build(spec, d / 'ds')
+        T = D.build(spec, d / case.get('dirname', 'ds'))
         before = D.sha_dir(T.dir)
         cwd = os.getcwd()
         if T.raw is not None and case.get('decoy'):
@@ -215,9 +244,13 @@ def check(case):
 
 
 def classify(case, info):
+    if 'large' in case:
+        return ['large:%d-spikes' % case['large']['ns'], 'non-monotonic-variant'], True
     s = case['spec']
     labels = ['naming:' + s['naming']]
     sw = []
+    if case.get('dirname', 'ds') != 'ds':
+        labels.append('special-characters-in-directory-name')
     if s['naming'] == 'alf':
         sw.append('alf')
     if s['col2d']:
